@@ -81,8 +81,9 @@ Print Assumptions C05_refused_append_changes_nothing.
 (* FULL STATEMENT (false of the code, see the two _refuted theorems below):
      forall c h, Forall op_ok h -> Forall shared_op h -> well_addressed c 0 h ->
        map pub (snd (run (init c) (map (force false) h))) = map pub (snd (run (init c) (map (force true) h))).
-   (partial) sparse = dense under two guards: every string fits Type.dtype's fixed width (short_op), and every in-place
-   update attr[k][c] = x hits an entry that holds a written vector (updates_hit_written).  Then the same history -
+   (partial) sparse = dense under three guards: reads and writes address elements of the container (well_addressed),
+   every custom default string fits Type.dtype's fixed width (short_op), and every in-place update attr[k][c] = x hits
+   an entry that holds a written vector (updates_hit_written).  Then the same history -
    creation, deletion, writes, reads, in-place updates, growth of every kind, clearing, array export - run with every
    attribute sparse and with every attribute dense gives the same observations. *)
 Theorem C05_sparse_dense_agree_partial : forall c h,
@@ -100,8 +101,8 @@ Theorem C05_agree_updates_unset_refuted :
 Proof. exact agree_updates_unset_refuted. Qed.
 Print Assumptions C05_agree_updates_unset_refuted.
 
-(* (refuted, known finding string-longer-than-fixed-width) a 33-character string written to a scalar string attribute:
-   the dense storage keeps 32 characters, the sparse storage all 33 *)
+(* (refuted, known finding string-longer-than-fixed-width) a 33-character custom default of a scalar string attribute:
+   the dense storage keeps 32 characters, the sparse read of a never-written entry returns all 33 *)
 Theorem C05_agree_long_strings_refuted :
   exists c h, Forall op_ok h /\ Forall shared_op h /\ well_addressed c 0 h /\ updates_hit_written (init c) h /\
               map pub (snd (run (init c) (map (force false) h))) <> map pub (snd (run (init c) (map (force true) h))).
@@ -185,3 +186,53 @@ Theorem C05_register_array : forall s a t k rows d s', reachable s -> op_ok (Reg
   (forall b j, b <> a -> rd s' b j = rd s b j) /\ sn s' = sn s.
 Proof. exact register_array. Qed.
 Print Assumptions C05_register_array.
+
+(* (refuted, known finding sparse-accepts-out-of-container-index) without `well_addressed` the two storages disagree:
+   the sparse storage accepts a[5] = 7 on a 1-element container (dense: OutOfBounds) and the value becomes entry 5
+   once the container has grown *)
+Theorem C05_agree_out_of_container_refuted :
+  exists c h, Forall op_ok h /\ Forall shared_op h /\ Forall short_op h /\ updates_hit_written (init c) h /\
+              map pub (snd (run (init c) (map (force false) h))) <> map pub (snd (run (init c) (map (force true) h))).
+Proof. exact agree_out_of_container_refuted. Qed.
+Print Assumptions C05_agree_out_of_container_refuted.
+
+(* (refuted, same finding) a sparse write at key -1 is exported by as_array at row n-1 while entry n-1 reads the default *)
+Theorem C05_sparse_negative_key_export_refuted :
+  exists s, reachable s /\ exists a rows, snd (step s (AsArray a)) = ORows rows /\
+            nth_error rows (Z.to_nat (sn s - 1)) <> rd s a (sn s - 1).
+Proof. exact sparse_negative_key_export_refuted. Qed.
+Print Assumptions C05_sparse_negative_key_export_refuted.
+
+(* (refuted, known finding string-longer-than-fixed-width) read-after-write fails for a string longer than the fixed
+   width: both storages cut it (C05_total_map states exactly what is read back: `written`) *)
+Theorem C05_long_string_cut_refuted :
+  exists s a k v s', reachable s /\ step s (SetItem a k v) = (s', OOk) /\
+    exists at_ isv l, lookup a (attrs s) = Some at_ /\ sparse_validate (aty at_) (asz at_) v = inr (isv, l) /\
+                      rd s' a k <> Some (map (cast (aty at_)) l).
+Proof. exact long_string_cut_refuted. Qed.
+Print Assumptions C05_long_string_cut_refuted.
+
+(* (full) history level: the last value written, or else the default - whatever happens in between that does not
+   touch the entry (writes elsewhere, other attributes created / deleted / cleared, every kind of growth, refused
+   operations, reads, exports) *)
+Theorem C05_last_write_or_default : forall c h1 a k h2,
+  Forall op_ok h1 -> Forall op_ok h2 -> untouched h2 a k ->
+  let s1 := fst (run (init c) h1) in
+  0 <= k < sn s1 ->
+  (forall v s1', step s1 (SetItem a k v) = (s1', OOk) ->
+     exists at_ isv l, lookup a (attrs s1) = Some at_ /\ sparse_validate (aty at_) (asz at_) v = inr (isv, l) /\
+                       rd (fst (run s1' h2)) a k = Some (written at_ isv l)) /\
+  (forall t e dense d s1', 1 <= e -> step s1 (Create a t e dense d) = (s1', OOk) ->
+     exists at', lookup a (attrs s1') = Some at' /\ rd (fst (run s1' h2)) a k = Some (unset_read (hp s1') at')) /\
+  (forall s1', step s1 (ClearAttr a) = (s1', OOk) ->
+     exists at_, lookup a (attrs s1) = Some at_ /\ rd (fst (run s1' h2)) a k = Some (unset_read (hp s1) at_)).
+Proof. exact last_write_or_default. Qed.
+Print Assumptions C05_last_write_or_default.
+
+(* (full) one-step frame for EVERY operation that does not touch (a,k) - Delete/AsArray/Has/Len/Iter/Snap/Contains,
+   writes elsewhere, growth, ... - and the law of deletion *)
+Theorem C05_frame_and_delete : forall s, reachable s ->
+  (forall o a k, op_ok o -> ~ touches o a k -> 0 <= k < sn s -> rd (fst (step s o)) a k = rd s a k) /\
+  (forall a k, rd (fst (step s (Delete a))) a k = None).
+Proof. exact frame_and_delete. Qed.
+Print Assumptions C05_frame_and_delete.
